@@ -15,6 +15,9 @@ import (
 // the same question asked through the public API: a preflight (debug off, discrete allowed names) is approved
 // iff its status is the success status. Returns -1 if the configuration is not accepted.
 func runCheckViaMiddleware(names, lines []string) int {
+	if len(names) == 0 { // no discrete allowed names: the middleware refuses any ACRH without consulting Check (not applicable)
+		return -1
+	}
 	m, err := cors.NewMiddleware(cors.Config{Origins: []string{"https://example.com"}, RequestHeaders: names})
 	if err != nil {
 		return -1
@@ -111,6 +114,61 @@ func famCheck(o *Out, r R, tier string) {
 		emit("byte-adjacent", base, []string{c + "ab"})
 		emit("byte-adjacent", base, []string{"ab" + c})
 		emit("byte-adjacent", base, []string{"ab," + c + "x-foo" + c})
+	}
+	// larger sets: every ordered pair of allowed names (any distance apart in the sorted set), on one line and on two
+	for _, sz := range []int{10, 18, 33} {
+		set := make([]string, sz)
+		for i := range set {
+			set[i] = "x-h" + string(rune('a'+i/10)) + string(rune('0'+i%10))
+		}
+		step := 1
+		if sz > 18 {
+			step = 3
+		}
+		for i := 0; i < sz; i += step {
+			for j := 0; j < sz; j++ {
+				emit("pair-in-large-set", set, []string{set[i] + "," + set[j]})
+				if (i+j)%3 == 0 {
+					emit("pair-in-large-set", set, []string{set[i], set[j]})
+					emit("pair-in-large-set", set, []string{set[0] + ", " + set[i] + " ," + set[j]})
+				}
+			}
+		}
+	}
+	for i := 0; i < n/4; i++ { // generated names, boundary set sizes, sorted sublists with one perturbation
+		sz := genCount(r)
+		set := make([]string, sz)
+		for j := range set {
+			set[j] = strings.ToLower(genHdrName(r))
+		}
+		sorted := append([]string(nil), set...)
+		sort.Strings(sorted)
+		var elems []string
+		for _, s := range sorted {
+			if r.chance(1, 3) {
+				elems = append(elems, s)
+			}
+		}
+		kind := "large-valid"
+		if len(elems) >= 2 {
+			switch r.Intn(5) {
+			case 0:
+				a, b := r.Intn(len(elems)), r.Intn(len(elems))
+				elems[a], elems[b] = elems[b], elems[a]
+				kind = "large-swapped"
+			case 1:
+				elems = append(elems, elems[r.Intn(len(elems))])
+				kind = "large-repeat"
+			case 2:
+				elems = append(elems, "x-unlisted")
+				kind = "large-foreign"
+			}
+		}
+		lines := perturbLines(r, elems)
+		if len(elems) == 0 {
+			lines = []string{""}
+		}
+		emit(kind, set, lines)
 	}
 	for i := 0; i < n; i++ {
 		k := 1 + r.Intn(6)
